@@ -167,6 +167,19 @@ def run_case(case, tid):
     end = {"tid": tid, "ev": "ZEnd", "outcome": outcome if not outcome.startswith("other") else "other",
            "storedSame": bool(float(stored_after.raw_value).hex() == sb[0]),
            "storedIsResult": True, "observed": False, "missOK": True, "reaches": True}
+    # the error a failed search raises says what happened: the number of trials made, the error of the last trial, and the last
+    # elevation (an angle; the one the search would have tried next) - compared with what hook H2 logged
+    end["errorTruthful"] = True
+    if outcome == "ZeroErr" and z is not None and z["iters"]:
+        x = o[2]
+        le = getattr(x, "last_barrel_elevation", None)
+        end["errorTruthful"] = bool(
+            getattr(x, "iterations_count", None) == len(z["iters"])
+            and getattr(x, "zero_finding_error", None) == z["iters"][-1]["error"]
+            and hasattr(le, "raw_value") and type(le).__name__ == "Angular"
+            and (z["end"] is None or abs((le >> U.Radian) - z["end"]["elevation"]) <= 1e-12 * max(1.0, abs(z["end"]["elevation"]))))
+        info["error_fields"] = {"iterations_count": getattr(x, "iterations_count", None), "zero_finding_error": getattr(x, "zero_finding_error", None),
+                                "last_barrel_elevation": repr(le)}
     if o[0] == "ok":
         end["storedIsResult"] = bool(float(stored_after.raw_value).hex() == float(o[1].raw_value).hex())
         # ---- fire with the returned zero and no hold-over; read the distance from the sight line at the aim point
@@ -300,6 +313,8 @@ def run(chk: core.Check, replay=None) -> None:
             chk.stratum("tangent_based_preferred_angle_on_inclined_line")
         if len(case["shot"]["winds"]) >= 2 and case["shot"]["winds"][0][2] < case["d_yd"] * 3.0:
             chk.stratum("wind_changes_inside_zero_distance")
+        if info["outcome"] == "ZeroErr":
+            chk.stratum("error_fields_compared_with_the_logged_search")
         if case["cfg"].get("cMaxIterations"):
             chk.stratum("small_iteration_cap_" + info["outcome"].split(":")[0])
     # ---- a calculator with a history: after a zero on one sight line, a zero on a very different one (steep downhill, then long and
@@ -334,7 +349,7 @@ def run(chk: core.Check, replay=None) -> None:
     chk.sample({k: v for k, v in infos[1].items()})
     chk.sample({"trace_lines": lines[:4]})
     chk.require_strata(["zero_after_a_zero_on_another_sight_line", "unreachable_below_the_altitude_floor", "reachable", "unreachable", "look_level", "look_mild", "look_steep",
-                        "miss_observed", "previous_zero_nonzero", "previous_zero_far_from_the_new_one", "tangent_based_preferred_angle_on_inclined_line", "small_iteration_cap_ZeroErr", "wind_changes_inside_zero_distance", "steep_and_long"])
+                        "miss_observed", "error_fields_compared_with_the_logged_search", "previous_zero_nonzero", "previous_zero_far_from_the_new_one", "tangent_based_preferred_angle_on_inclined_line", "small_iteration_cap_ZeroErr", "wind_changes_inside_zero_distance", "steep_and_long"])
     chk.exhaustive = False
     chk.rule.append("seeded un-canted shots (G1/G7/.. tables, 600-4000 fps, sight heights -2..6 in, look angles 0, +-5..+-59 deg, 0-2 "
                     "winds, previously stored zero 0 / small / large / negative) x zero distances 10 yd - 1500 yd, plus unreachable "
